@@ -3,3 +3,4 @@ import ZixModel.Properties.C09
 import ZixModel.Properties.C05
 import ZixModel.Properties.C16
 import ZixModel.Properties.C17
+import ZixModel.Properties.C13
